@@ -81,7 +81,7 @@ RED = {"sa": [0, 1, 2, 3], "sb": [0, 1, 2, 3], "oa": [0, 5, 24, 26], "ob": [0, 9
 
 
 MED = {"sa": [0, 1, 2, 3], "sb": [0, 1, 2, 3], "oa": [0, 3, 5, 9, 13, 17, 24, 25, 28, 29, 30, 31], "ob": [0, 2, 7, 11, 16, 21, 26, 27, 28, 29, 30, 31],
-       "fa": [0, 1, 2, 3], "ma": [0, 1], "mb": [0, 1], "pl": list(range(16)), "u": list(range(31))}
+       "fa": [0, 1, 2, 3], "ma": [0, 1], "mb": [0, 1], "pl": list(range(16)), "u": list(range(len(sc.DIRS)))}
 
 
 def enumerate_dev3(seed, full, alph=None):
